@@ -2,12 +2,17 @@ import RpmVerif.Driver.Common
 import RpmVerif.Model.Header
 import RpmVerif.Model.Cpio
 import RpmVerif.Model.AddData
+import RpmVerif.Driver.FileIterObs
+import RpmVerif.Model.PayloadWriter
 /-!
 Driver for C07 (see harness/src/c07.rs for the request and observation formats).
 
-* `files comp=… large=… f=<hexdest>:<octperm>:<size>:<kind><seed> …` — the harness BUILT the package
-  with the real builder.  Model = `buildFiles` (BTreeMap by cpio path) + `builderArchive[Large]` +
-  `iterate`, all from `Model/Cpio.lean`; the contents are regenerated from the seeds.  Spec = the
+* `files comp=… large=… [thr=N] f=<hexdest>:<octperm>:<size>:<kind><seed> …` — the harness BUILT the package
+  with the real builder.  Model = `buildFiles` (BTreeMap by cpio path) + the large-file switch
+  (`PWriter.usesLargeFiles`, or `combined > N` under the hook's threshold) + the archive: standard mode through the
+  `payload::Writer` STATE MACHINE (`PWriter.builderArchiveW` into an all-accepting sink — equal to
+  `Cpio.builderArchive` by `builder_archive_writer`), large-file mode `builderArchiveLarge` + the drained iterator
+  (`FileIter.collectMem`); the contents are regenerated from the seeds.  Spec = the
   property read literally: the files given, ordered by cpio path, each with its exact bytes, its own
   mode, |content| = recorded size, SHA-256 matching the recorded digest (`dg`, computed by the harness).
 * `filesraw <package>` — a hand-assembled foreign package.  Model = `Hdr.parsePackage` + the subset of
@@ -18,7 +23,12 @@ Driver for C07 (see harness/src/c07.rs for the request and observation formats).
   naming no header file must not come out under any metadata (an error item is what is expected).
 -/
 namespace RpmVerif.Driver.C07
-open RpmVerif.Cpio RpmVerif.Driver
+open RpmVerif.Cpio RpmVerif.Driver RpmVerif.FileIter
+
+/-! Both ops: the model runs `FileIter.collectMem` — `FileIterator::next` as a state machine, drained like `collect()`
+does, past error items — ONCE; the items up to the first error (`uptoErr`, = `Cpio.iterateE` by
+`iterateE_is_prefix_mem`) give the per-item part of the observation, the whole list gives `all=<k>:<classes>:<fnv>`
+(`FileIterObs.allObs`).  Spec for `all=`: the iterator must end (`fails:runaway` otherwise). -/
 
 def ops : List String := ["files", "filesraw"]
 
@@ -58,10 +68,10 @@ structure Item where
 def Item.str (i : Item) : String :=
   s!"{pathRepr i.path}:{i.size}:{i.content.length}:{hex16 (fnv i.content)}:{octal i.mode}:{i.dg}"
 
-def obsOf (items : List Item) (ar : String) (errAt : Option Nat) : String :=
+def obsOf (items : List Item) (ar : String) (errAt : Option Nat) (all : String) : String :=
   let base := s!"ok n={items.length} ar={ar}"
   let base := items.foldl (fun s i => s ++ " " ++ i.str) base
-  match errAt with | some k => base ++ s!" err@{k}" | none => base
+  (match errAt with | some k => base ++ s!" err@{k}" | none => base) ++ s!" all={all}"
 
 /-- split the model's iteration result into the yielded items and the position of the first error -/
 def splitIter {α} : List (Out α) → List α × Option Nat
@@ -83,16 +93,19 @@ structure IObs where
   n : String
   items : List IItem
   err : Option String
+  all : String
 
 def parseImpl (impl : String) : Option IObs :=
   match impl.splitOn " " with
-  | "ok" :: n :: _ar :: rest =>
+  | "ok" :: n :: _ar :: rest0 =>
+    let all := ((rest0.find? (·.startsWith "all=")).map fun t => (t.drop 4).toString).getD "?"
+    let rest := rest0.filter fun t => !t.startsWith "all="
     let (its, errs) := rest.partition fun t => !t.startsWith "err@"
     let items := its.filterMap fun t => match t.splitOn ":" with
       | [p, s, l, f, m, d] => some ⟨p, s, l, f, m, d⟩
       | _ => none
     if items.length ≠ its.length then none else
-    some ⟨n.drop 2 |>.toString, items, errs.head?⟩
+    some ⟨n.drop 2 |>.toString, items, errs.head?, all⟩
   | _ => none
 
 /-! ## `files` -/
@@ -157,14 +170,24 @@ def handleFiles (args : List String) (impl : String) : String :=
     let fs := buildFiles given
     let sizes := fs.map (·.content.length)
     let combined := sizes.foldl (· + ·) 0
-    let usesLarge := large && combined > 0
-    let archive := if usesLarge then builderArchiveLarge fs else builderArchive 0 0 fs
-    let (cs, errAt) := splitIter (iterate archive (fs.map fun f => headerPath f.path) sizes)
+    let thr : Option Nat := (args.find? (·.startsWith "thr=")).bind fun t => (t.drop 4).toString.toNat?
+    -- `combined_file_sizes > u32::MAX`, or the hook's threshold
+    let usesLarge := match thr with
+      | some n => decide (combined > n)
+      | none => if large then decide (combined > 0) else RpmVerif.PWriter.usesLargeFiles fs
+    -- standard mode: every entry goes through the `payload::Writer` state machine (sink = the in-memory archive)
+    let written := if usesLarge then (Out.ok (), ({ out := builderArchiveLarge fs } : RpmVerif.PWriter.Sink))
+                   else RpmVerif.PWriter.builderArchiveW 0 0 fs {}
+    if written.1 != Out.ok () then answer "err-build" "fails:err" "built-writer-refused" else
+    let archive := written.2.out
+    let hpaths := fs.map fun f => headerPath f.path
+    let all := collectMem archive hpaths sizes
+    let (cs, errAt) := splitIter ((uptoErr all).map (Out.map fun x => (x.1, x.2.2)))
     -- the metadata of an item is that of the header file the iterator looked up for it
     let mItems : List Item := cs.filterMap fun (i, c) => (fs[i]?).map fun f =>
       ⟨headerPath f.path, f.content.length, c, f.mode, if c == f.content then "1" else "0"⟩
     let ar := if compOf args == "none" then hex16 (fnv archive) else "-"
-    let model := obsOf mItems ar errAt
+    let model := obsOf mItems ar errAt (FileIterObs.allObs all fun i => hpaths.getD i [])
     -- spec, from the request alone: the given files ordered by cpio path, exact bytes, own metadata
     let dup := (given.map (·.path)).eraseDups.length ≠ given.length
     let tooLong := given.any fun f => f.path.length + 1 > Gen.cpioNameLenMax
@@ -177,12 +200,16 @@ def handleFiles (args : List String) (impl : String) : String :=
       else match parseImpl impl with
         | none => "fails:err"
         | some o =>
-          if o.err.isSome then "fails:err"
+          if o.all == "runaway" then "fails:runaway"
+          else if o.err.isSome then "fails:err"
           else match firstDiff expItems o.items with
             | "none" => "holds"
             | c => "fails:" ++ c
     let szClass := if sizes.any (· ≥ 1000000) then "-MiB" else if sizes.any (· ≥ 4095) then "-4k+" else ""
-    let branch := s!"built-{compOf args}-{if usesLarge then "stripped" else "newc"}-n{min fs.length 3}{szClass}" ++
+    let thrClass := match thr with
+      | some n => if combined == n then "-thr=" else if combined == n + 1 then "-thr+1" else "-thr"
+      | none => ""
+    let branch := s!"built-{compOf args}-{if usesLarge then "stripped" else "newc"}-n{min fs.length 3}{szClass}{thrClass}" ++
       (if dup then "-dup" else "") ++ (if tooLong then "-name>4095" else "")
     answer model verdict branch
 
@@ -251,7 +278,8 @@ def handleRaw (pkgHex : String) (impl : String) : String :=
         let sizes := fes.map (·.2.1)
         let paths := fes.map (·.1)          -- the header's file paths
         -- model: the iterator as it is (metadata index by `fileIndex`)
-        let its := iterateE paths sizes sizes.length p.content
+        let all := collectMem p.content paths sizes
+        let its := uptoErr all
         let (arch, clean) := listArchive sizes (p.content.length + 1) p.content
         -- the part of the archive the `count` guard lets the iterator reach
         let reach := arch.take fes.length
@@ -266,7 +294,7 @@ def handleRaw (pkgHex : String) (impl : String) : String :=
           ⟨path, size, c, mode,
            -- generator contract: the digest is that of the complete content meant for this path
            if dgst.isEmpty then "n" else if (byName path).head? == some c && c.length == size then "1" else "0"⟩
-        let model := obsOf mItems "-" errAt
+        let model := obsOf mItems "-" errAt (FileIterObs.allObs all fun i => paths.getD i [])
         -- spec: pairing by name, judged on the implementation's observation
         let unknownAt := reach.findIdx? fun a => (designated a).isNone
         let verdict := match parseImpl impl with
@@ -289,7 +317,8 @@ def handleRaw (pkgHex : String) (impl : String) : String :=
                   else if i.dg == "0" then some "digest"
                   else none
             let fails := (o.items.zipIdx.filterMap fun (i, j) => judge j i)
-            if fails.contains "position-pairing" then "fails:position-pairing"
+            if o.all == "runaway" then "fails:runaway"
+            else if fails.contains "position-pairing" then "fails:position-pairing"
             else match fails.head? with
               | some c => "fails:" ++ c
               | none =>
